@@ -157,7 +157,7 @@ class Multiline:
       prev_datatype = self.get_datatype(tagname)
     else:
       prev_datatype = prev.datatype
-    if self.vlevel > 1 and datatype is not None and datatype != prev_datatype:
+    if datatype is not None and datatype != prev_datatype:
       raise gfapy.InconsistencyError(
         "Datadatatype mismatch error for field {}:\n".format(tagname)+
         "value: {}\n".format(value)+
